@@ -17,9 +17,15 @@ import (
 	"testing"
 	"time"
 
+	"context"
+	"github.com/nuetzliches/hookaido/internal/pullapi"
 	"github.com/nuetzliches/hookaido/internal/queue"
 	"github.com/nuetzliches/hookaido/internal/verifhook"
 	"github.com/nuetzliches/hookaido/internal/verifkit"
+	"github.com/nuetzliches/hookaido/internal/workerapi"
+	workerapipb "github.com/nuetzliches/hookaido/internal/workerapi/proto"
+	"google.golang.org/grpc/metadata"
+	"google.golang.org/grpc/status"
 	"pgregory.net/rapid"
 )
 
@@ -693,6 +699,70 @@ func runC18(c C18Case, tolerate bool) *fOutcome {
 				}
 				out.Failure = f
 				return out
+			}
+		}
+		// the same for the Worker gRPC transport (wired as startServers wires it): authorized, reload, resolved
+		workerAns := func(rw *frontWorld, endpoint, tok string) string {
+			ph := pullapi.NewServer(rw.store)
+			ph.ResolveRoute = rw.state.resolvePull
+			ph.Authorize = rw.state.authorizePull
+			wk := workerapi.NewServer(ph)
+			wk.ResolveRoute = rw.state.resolvePull
+			wk.Authorize = rw.state.authorizeWorker
+			wk.PlanRequest = rw.state.planWorker
+			md := metadata.MD{}
+			if tok != "" {
+				md.Set("authorization", "Bearer "+tok)
+			}
+			resp, err := wk.Dequeue(metadata.NewIncomingContext(context.Background(), md), &workerapipb.DequeueRequest{Endpoint: endpoint, Batch: 1})
+			if err != nil {
+				return status.Code(err).String()
+			}
+			if len(resp.GetItems()) > 0 {
+				return "OK:" + resp.GetItems()[0].GetRoute()
+			}
+			return "OK"
+		}
+		for i := range slotPaths {
+			for _, suf := range []string{"x", "y"} {
+				for _, tok := range []string{"g1", "g2", "rt1", "rt2"} {
+					ep := fmt.Sprintf("/pull/s%d%s", i, suf)
+					name := fmt.Sprintf("worker s%d%s tok=%s", i, suf, tok)
+					vo, vn := workerAns(refOld, ep, tok), workerAns(refNew, ep, tok)
+					if vo == vn && !strings.HasPrefix(vo, "OK") {
+						continue
+					}
+					wi := mkWorld(oldText)
+					if wi == nil {
+						return out
+					}
+					_ = os.WriteFile(wi.cfgPath, []byte(newText), 0o600)
+					fired := false
+					verifhook.On("worker.after-authorize", func() {
+						if !fired {
+							fired = true
+							wi.reload()
+						}
+					})
+					ans := workerAns(wi, ep, tok)
+					verifhook.On("worker.after-authorize", nil)
+					wi.close()
+					if !fired {
+						continue
+					}
+					out.Labels["reload-inside-worker-request"] = true
+					same := func(a, b string) bool {
+						return a == b || (strings.HasPrefix(a, "OK") && strings.HasPrefix(b, "OK") && (a == "OK" || b == "OK"))
+					}
+					if !same(ans, vo) && !same(ans, vn) {
+						f := ffail("C18", "request-mixed-configuration", i, "worker request %q, authorized before the reload and resolved after it, answers %s; entirely-old answers %s, entirely-new answers %s\nold:\n%s\nnew:\n%s", name, ans, vo, vn, oldText, newText)
+						if strings.HasPrefix(ans, "OK") {
+							f.Prop = "C18,C11"
+						}
+						out.Failure = f
+						return out
+					}
+				}
 			}
 		}
 		return out
